@@ -194,7 +194,7 @@ def project_net_file(path):
             continue
         a = dict(NET_ACT)
         a.update({k: v for k, v in act.items() if k in NET_ACT})
-        cur.append({"i": ln["i"], "scn": ln["scn"], "t": ln["t"], "act": a, "quiet": bool(ln["quiet"]), "lp": ln["lp"], "gt": ln["gt"],
+        cur.append({"i": ln["i"], "scn": ln["scn"], "t": ln["t"], "act": a, "quiet": bool(ln["quiet"]), "lp": ln["lp"], "lp0": ln["lp0"], "gt": ln["gt"],
                     "conn": ln["conn"], "found": ln.get("found", 0), "other_alive": bool(ln.get("other_alive", False))})
     return scns
 
@@ -257,7 +257,7 @@ def model_checking(ctx):
         ("mc-wire-1peer", "MCInterest1", mc_cfg(False, **wire_side), "ok", None, 900),
         ("mc-belief-2peers", "MCInterest", mc_cfg(True, **belief_side), "ok", None, 900),
         ("mc-asfound-D12", "MCInterest", mc_cfg(True, FixD12=False, **belief_side), "fail", "P_C05_ListPeers", 600),
-        ("mc-asfound-D18", "MCInterest", mc_cfg(True, ClosedOrdered=False, **belief_side), "fail", "P_C05_ListPeers", 600),
+        ("mc-asfound-late-closedstream", "MCInterest", mc_cfg(True, ClosedOrdered=False, **belief_side), "fail", "P_C05_ListPeers", 600),
         ("mc-seeded-retry-no-recheck", "MCInterest1", mc_cfg(False, RetryRechecks=False, **wire_side), "fail", "P_C05_NoSpuriousAnnounce", 600),
         ("mc-asfound-retry-fanout", "MCInterest1", mc_cfg(False, AllowFanout=True, RetryFanoutAware=False, MaxOps=6, MaxDisc=0, MaxResetOut=0,
                                                           MaxGate=0, **wire_side), "fail", "P_C05_NoSpuriousAnnounce", 600),
@@ -484,8 +484,8 @@ def validate(ctx, module, scenarios, name, chunk):
 
 # ----------------------------------------------------------------------------- verdict
 D12_SIG = {"cause": "StreamReset", "dir": "outbound", "inbound_alive": True}
-D17_SIG = {"cause": "RetryIgnoresFanoutOnly"}
-D18_SIG = {"cause": "StreamReset", "dir": "inbound-replaced", "race": "ClosedStreamAfterHello"}
+RETRY_FANOUT_SIG = {"cause": "RetryIgnoresFanoutOnly"}
+LATE_CLOSED_SIG = {"cause": "StreamReset", "dir": "inbound-replaced", "race": "ClosedStreamAfterHello"}
 
 
 def signature(v, view):
@@ -493,17 +493,17 @@ def signature(v, view):
     if pred == "P_C05_ListPeers":
         if v.get("d12"):
             return dict(D12_SIG)
-        if v.get("d18"):
-            return dict(D18_SIG)
+        if v.get("d18"):   # finding C05-LATE-CLOSEDSTREAM
+            return dict(LATE_CLOSED_SIG)
         got, want = set(v["got"]) | set(v.get("belief", [])), set(v["want"])
         return {"cause": "other", "view": view, "kind": ("extra" if got - want else "") + ("missing" if want - got else "")}
     if pred == "P_C05_NoSpuriousAnnounce":
         if v["why"] == "staleRetry" and v.get("fanoutSubscribed") and v["ev"]["sub"]:
-            return dict(D17_SIG)
+            return dict(RETRY_FANOUT_SIG)
         return {"cause": "other", "why": v["why"], "k": v["ev"]["k"], "sub": v["ev"]["sub"]}
     if pred == "P_C05_WireTruth":
         if v.get("fanoutRetry"):
-            return dict(D17_SIG)
+            return dict(RETRY_FANOUT_SIG)
         wire, want = set(v["wire"]), set(v["want"])
         return {"cause": "other", "up": v["up"], "kind": ("extra" if wire - want else "") + ("missing" if want - wire else "")}
     if pred == "P_C05_AnnounceOnEdge":
@@ -638,7 +638,7 @@ def run(ctx):
         record(ctx, viols, view, test, scns, seen)
         mid = traces[len(traces) // 2]
         samples.append({"driver": test, "scenario": scns[mid[0]["scn"]], "trace": mid[:6]})
-        ctx.log("%s: %d predicate failures (%s)" % (module, len(viols), json.dumps({k[0] + ":" + json.loads(k[1]).get("cause", ""): n for k, n in seen.items()})))
+        ctx.log("%s: %d predicate failures (%s)" % (module, len(viols), json.dumps({k[0] + ":" + json.loads(k[1]).get("cause", "") + "/" + str(json.loads(k[1]).get("dir", json.loads(k[1]).get("kind", ""))): n for k, n in seen.items()})))
     if discarded > 0.05 * (len(wire_scns) + len(net_scns)):
         raise vlib.Inconclusive("%d scenarios were discarded because the simulated network did not follow the connectivity stimuli" % discarded)
     if discarded:
